@@ -215,4 +215,33 @@ B("c19-dedupe-args", "C19", "C19-R4", (CM, "    execute_process(", "    list(REM
 G("c19-rename-var", ["C19"], (CM, "_cgr_cminx_options", "_cgr_opts"), all=True)
 G("c19-result-check-idiom", ["C19"], (CM, "        COMMAND_ERROR_IS_FATAL ANY\n    )", "    )\n    if(NOT ${process_result} EQUAL 0)\n        message(FATAL_ERROR \"cminx failed: ${process_err}\")\n    endif()"))
 
+# ------------------------------------------------------------------ round-2 rules: benign twins and direct breakers
+ALL_FS = ["C12", "C13", "C14", "C15", "C17", "C18"]
+G("r2-page-loop-in-both-mode-arms", ALL_FS,
+  (INIT, "            for file in filenames:\n                if file.lower().endswith(\".cmake\"):\n                    document_single_file(\n                        os.path.join(\n                            root,\n                            file),\n                        input_path,\n                        new_settings)\n",
+   "            if output_path is not None:\n                for file in filenames:\n                    if file.lower().endswith(\".cmake\"):\n                        document_single_file(os.path.join(root, file), input_path, new_settings)\n            else:\n                for file in filenames:\n                    if file.lower().endswith(\".cmake\"):\n                        document_single_file(os.path.join(root, file), input_path, new_settings)\n"))
+G("r2-input-path-if-else", ALL_FS,
+  (INIT, "    input_path = os.path.abspath(input_file)\n    if os.path.isdir(input_path):\n        # os.path.join() adds a trailing slash to directories if absent\n        input_path = os.path.join(input_path, '')\n",
+   "    absolute = os.path.abspath(input_file)\n    if os.path.isdir(absolute):\n        input_path = absolute + os.sep\n    else:\n        input_path = absolute\n"))
+G("r2-order-free-set-loop", ["C17", "C02", "C12"],
+  (DOC, "        for doc in docs:\n            doc.process(self.writer)", "        kinds = set(type(doc).__name__ for doc in docs)\n        has_module = False\n        for kind in kinds:\n            if kind == \"ModuleDocumentation\":\n                has_module = True\n        self.logger_has_module = has_module and len(kinds) > 0\n        for doc in docs:\n            doc.process(self.writer)"))
+G("r2-module-name-by-partition", ["C12", "C01", "C04", "C07"],
+  (AGG, 'module_name = cleaned_lines[0].replace("@module", "").strip()', 'module_name = cleaned_lines[0].partition("@module")[2].strip()'))
+G("r2-module-name-regex-wide", ["C12", "C04"],
+  (AGG, 'module_name = cleaned_lines[0].replace("@module", "").strip()', 'name_match = re.search(r"@module\\s*(.*)", cleaned_lines[0])\n        module_name = (name_match.group(1) if name_match is not None else "").strip()'))
+B("r2-module-name-regex-narrow", "C12", "C12-R5m",
+  (AGG, 'module_name = cleaned_lines[0].replace("@module", "").strip()', 'name_match = re.search(r"@module\\s*([\\w.]+)", cleaned_lines[0])\n        module_name = (name_match.group(1) if name_match is not None else "").strip()'))
+B("r2-index-write-conditional", ["C14", "C13"], ["C14-R5", "C13-R7"],
+  (INIT, "                index.write_to_file(", "                if subdirs or filenames:\n                  index.write_to_file("))
+B("r2-walk-relative-root", ["C17", "C15"], ["C17-R6", "C15-R5"],
+  (INIT, "        for root, subdirs, filenames in os.walk(\n                input_path,", "        for root, subdirs, filenames in os.walk(\n                os.path.relpath(input_path),"))
+B("r2-set-iteration-render", "C17", "C17-R4",
+  (DT, "            for attribute in self.attributes:", "            for attribute in frozenset(self.attributes):"))
+B("r2-skip-dir-in-file-mode", "C18", "C18-R8",
+  (INIT, "            filenames = sorted(filenames)\n", "            filenames = sorted(filenames)\n            if output_path is not None and root.startswith(output_path):\n                continue\n"))
+B("r2-exclude-type-conversion", "C15", "C15-R3",
+  (INIT, '        dest="input.exclude_filters",\n        action="append")', '        dest="input.exclude_filters",\n        type=str.strip,\n        action="append")'))
+B("r2-bool-template-literal", "C16", "C16-R3",
+  (CFG, '            "recursive": bool,', '            "recursive": False,'))
+
 VARIANTS = [v for v in VARIANTS if v is not None]
